@@ -46,6 +46,8 @@ def _gen_specs(rng, n, n_obs, group=5):
         if i % group == 0:
             shape = dict(width=WIDTHS[(i // group) % len(WIDTHS)] if i < group * len(WIDTHS) else rng.choice(WIDTHS), obs_dim=rng.randint(1, 6), act_dim=rng.randint(1, 4))
         depth = i % 5 if i < 10 else rng.randint(0, 4)  # every depth at least twice
+        if i in (10, 11) or (i > 11 and rng.random() < 0.08):
+            depth = rng.choice([9, 10, 11, 12])  # two-digit layer names (Dense_10 sorts before Dense_2)
         spec = dict(
             seed=rng.randrange(1, 2**30), depth=depth, **shape,
             activation=ACTS[i % 4] if i < 8 else rng.choice(ACTS), squash=bool((i // 2) % 2) if i < 8 else rng.random() < 0.5,
@@ -116,8 +118,10 @@ def _judge_net(res, r, driver_out):
         pairs = [("policy_det", "policy.get_action(obs)", r["got_det"][i], r["ref_det"][i], "actor mean"), ("policy_sample", "policy.get_action(obs, rng=key)", r["got_smp"][i], r["ref_smp"][i], "actor pi.sample(seed=key)")]
         if i < len(r["got_det_u"]):
             pairs += [("policy_det", "unbatched policy.get_action(obs)", r["got_det_u"][i], r["ref_det"][i], "actor mean"), ("policy_sample", "unbatched policy.get_action(obs, rng=key)", r["got_smp_u"][i], r["ref_smp"][i], "actor pi.sample(seed=key)")]
+        if "got_bat" in r and i < len(r["got_bat"]):
+            pairs.append(("policy_sample", "row of policy.get_action(batch of observations, rng=one key)", r["got_bat"][i], r["ref_bat"][i], "actor pi.sample(seed=key) on the batch"))
         for key, what, got, want, wname in pairs:
-            m2 = mag + (0 if key == "policy_det" else max(abs(e) for e in r["normal"][i]) * max(r["ref_std"]))
+            m2 = mag + (0 if key == "policy_det" else (max(abs(e) for e in r["normal"][i]) + 4.0) * max(r["ref_std"]))
             bad = len(got) != len(want) or any(_far(g, w, _tol(m2, span, w, spec["depth"])) for g, w in zip(got, want))
             if bad:
                 extra = ""
